@@ -68,8 +68,14 @@ class Molecule(BigSMILESbase):
                         other_bd = self._elements[-1].bond_descriptors[-1]
                     if len(pre_stochastic.bond_descriptors) > 0:
                         found_compatible = False
-                        for bd in pre_stochastic.bond_descriptors[0]:
-                            if bd.is_compatible(other_bd):
+                        for bd in pre_stochastic.bond_descriptors:
+                            # The previous element leaves the conjugate of its terminal
+                            # descriptor open, so the token needs a descriptor equal to it.
+                            if (
+                                bd.descriptor == other_bd.descriptor
+                                and bd.descriptor_id == other_bd.descriptor_id
+                                and bd.bond_type == other_bd.bond_type
+                            ):
                                 found_compatible = True
                         if not found_compatible:
                             raise RuntimeError(
